@@ -21,6 +21,8 @@ SeqApply(be, C, o) ==
       [] o.op = "del_all"   -> [c |-> [x \in DOMAIN C |-> {}], out |-> "ok", res |-> {}]
       [] o.op = "add_blank" -> [c |-> SeqPut(C, o.g, SeqGet(C, o.g) \cup {o.label}), out |-> "ok", res |-> {}]
       [] o.op = "extract"   -> [c |-> C, out |-> "ok", res |-> SeqGet(C, o.g)]
+      \* get_graph: the stored graph object of an id (the per-graph store creates an empty one on first access)
+      [] o.op = "get_graph" -> [c |-> C, out |-> "ok", res |-> {}]
       \* delete_node of the property graph on top of the store (not a store operation: it takes no lock)
       [] o.op = "del_node"  -> IF o.label \in SeqGet(C, o.g)
                                THEN [c |-> SeqPut(C, o.g, SeqGet(C, o.g) \ {o.label}), out |-> "ok", res |-> {}]
